@@ -59,8 +59,8 @@ def audit(F, fn, err_types=CORE_ERR, skip=lambda c: False):
                 pass  # collect::<Result<..>>() IS a producer of a Result
             else:
                 continue
-        if skip(c):
-            continue
+        if skip(c) or last in ("remove_file", "remove_dir_all", "remove_dir"):
+            continue  # best-effort cleanup of temporary files carries no data
         tags = result_consumers(fn, c)
         if ty.startswith("std::option::Option<std::result::Result<"):
             # an iterator item: the Some/None test is not an inspection of the Result
